@@ -23,3 +23,7 @@ def interesting(cfg, root):
 
 OBLIGATIONS = make(globals(), "subscan", oracle, PATS_Q, PATS_T, interesting=interesting,
                    bound_extra="Oracle: children of each decoded node without decoder-supplied children == children of a fresh scanner's scan_node(Node(type, value), remaining depth).")
+
+# a smaller depth budget with several decoded siblings (the remaining depth of each must not depend on its elder siblings)
+OBLIGATIONS += make(globals(), "subscan", oracle, ["DpDp", "DdDp"], ["DpDpDp", "DpPDd"], depth=2, interesting=interesting,
+                    bound_extra="As above with depth limit 2.")
